@@ -1,4 +1,5 @@
 import PcbV.Lemmas.MiniBasic
+import PcbV.Lemmas.MiniBasicX
 import PcbV.Props.C02
 /-
   C19 — Structured control flow follows its reference semantics.
@@ -291,9 +292,10 @@ example : cintLit (-2) 5 = 0 ∧ cintLit 2 5 = 0 ∧ cintLit 1 2 = 1 ∧ cintLit
     whatever the distribution of the statements over program lines.  If the reference semantics
     terminates (normally or with an error) the mechanism, started on the compiled program, prints the same
     values and stops the same way.
-    `_partial`: the structured fragment has no IF/ELSE, GOSUB/RETURN, GOTO, ON and therefore no early
-    exits from loops; those statements are covered on the Mech layer by `on_select`,
-    `return_resumes_after_call`, `mismatch_errors` and by the correspondence run. -/
+    `_partial`: this first fragment has no IF/ELSE and no GOSUB/RETURN; `mech_refines_spec_if_gosub_partial`
+    below adds both.  GOTO, ON and early exits from loops stay outside the structured fragment; they are
+    covered on the Mech layer by `on_select`, `return_resumes_after_call`, `mismatch_errors`,
+    `next_drops_stale_records`, `wend_drops_stale_records` and by the correspondence run. -/
 theorem mech_refines_spec_partial (code : List Instr) (p : SStmt) (hc : stmts code = compile p)
     (f : Nat) (env0 : Env) :
     (∀ σ', exec f (.stmt p) ⟨env0, []⟩ = .ok σ' →
@@ -371,6 +373,147 @@ example : (trace true [⟨10, [.next []]⟩] 9).2 = .err E.next_without_for ∧
     (trace true [⟨10, [.for_ 0 (.lit 1) (.lit 2) none]⟩] 9).2 = .err E.for_without_next ∧
     (trace true [⟨10, [.while_ (.lit 1)]⟩] 9).2 = .err E.while_without_wend ∧
     (trace true [⟨10, [.goto 5]⟩] 9).2 = .err E.undefined_line_number := by decide
+
+/-! ### Mech refines Spec: IF … THEN … ELSE and GOSUB / RETURN -/
+
+/-- **Mech refines Spec, with IF/THEN/ELSE and GOSUB/RETURN.**  `main` and the subroutine bodies `subs` are
+    structured programs built from PRINT, LET, FOR/NEXT, WHILE/WEND, IF … THEN … [ELSE …] in statement form
+    (`Layout`: an IF and its branches, which contain no further IF, stand on one line that ends with them;
+    everything else may be spread over the lines in any way) and GOSUB to the compiled subroutines
+    (`SubsOk`: subroutine k stands somewhere in the program on its own line number, followed by RETURN;
+    subroutines may call each other and themselves).  The program is `main`, then END or the end of the
+    program.  If the reference semantics terminates (normally or with an error) the mechanism prints the same
+    values and stops the same way, with all three stacks empty after a normal end.
+    `_partial`: still outside the structured fragment are early exits from loops / subroutines by GOTO, ON,
+    and an IF inside the branch of an IF (see `EarlyExitRefinement` for the invariant of the first). -/
+theorem mech_refines_spec_if_gosub_partial (entry : Nat → Nat) (code : List Instr) (subs : List XStmt)
+    (start : Nat → Nat) (hsubs : SubsOk entry code subs start) (main : XStmt) (post : List Stmt)
+    (hc : stmts code = xcompile entry main ++ post)
+    (hend : stmtAt code (xcompile entry main).length = none ∨
+            stmtAt code (xcompile entry main).length = some .end_)
+    (hL : Layout entry code 0 main) (f : Nat) (env0 : Env) :
+    (∀ σ', xexec subs f (.stmt main) ⟨env0, []⟩ = .ok σ' →
+      ∃ n sf, run code n ⟨0, env0, [], [], [], []⟩ = (sf, .ended) ∧ sf.out = σ'.out ∧ sf.env = σ'.env ∧
+        sf.fors = [] ∧ sf.whiles = [] ∧ sf.gosubs = []) ∧
+    (∀ e σ', xexec subs f (.stmt main) ⟨env0, []⟩ = .err e σ' →
+      ∃ n sf, run code n ⟨0, env0, [], [], [], []⟩ = (sf, .err e) ∧ sf.out = σ'.out) := by
+  have h := (xsim entry code subs start hsubs f).stmt main ⟨env0, []⟩ [] post [] [] [] (by simp [hc]) hL
+  constructor
+  · intro σ' hex
+    rw [hex] at h
+    obtain ⟨n, hn⟩ := run_of_steps (show Steps code _ _ from h)
+    refine ⟨n + 1, after (0 + (xcompile entry main).length) [] [] [] σ', ?_, rfl, rfl, rfl, rfl, rfl⟩
+    have := hn 1
+    simp only [List.length_nil] at this
+    rw [show after 0 [] [] [] ⟨env0, []⟩ = ⟨0, env0, [], [], [], []⟩ from rfl] at this
+    rw [this]
+    rcases hend with hend | hend <;> simp [run, runWith, stepWith, after, hend, Nat.zero_add]
+  · intro e σ' hex
+    rw [hex] at h
+    obtain ⟨m, m', hs, hstep, hout⟩ := h
+    obtain ⟨n, hn⟩ := run_of_steps hs
+    refine ⟨n + 1, m', ?_, hout⟩
+    have := hn 1
+    simp only [List.length_nil] at this
+    rw [show after 0 [] [] [] ⟨env0, []⟩ = ⟨0, env0, [], [], [], []⟩ from rfl] at this
+    rw [this]
+    simp only [step] at hstep
+    simp [run, runWith, hstep]
+
+/-! non-vacuity: a program with a subroutine call, an IF … ELSE line inside a loop, and a recursive subroutine -/
+
+def xDemoCode : List Instr :=
+  flatten [⟨10, [.for_ 0 (.lit 1) (.lit 3) none, .gosub 100]⟩,
+           ⟨20, [.ifThen (.bin .gt (.var 1) (.lit 2)) none, .print (.var 1), .else_ none, .print (.lit 0),
+                 .gosub 100]⟩,
+           ⟨30, [.next [0], .end_]⟩,
+           ⟨100, [.let_ 1 (.bin .add (.var 1) (.var 0)), .ifThen (.bin .lt (.var 1) (.lit 2)) none, .gosub 100]⟩,
+           ⟨110, [.ret]⟩]
+
+def xDemoMain : XStmt :=
+  .for_ 0 (.lit 1) (.lit 3) none true
+    (.seq (.call 0) (.ife (.bin .gt (.var 1) (.lit 2)) (.print (.var 1)) (.seq (.print (.lit 0)) (.call 0))))
+
+def xDemoSubs : List XStmt :=
+  [.seq (.let_ 1 (.bin .add (.var 1) (.var 0))) (.ift (.bin .lt (.var 1) (.lit 2)) (.call 0))]
+
+example : SubsOk (fun k => 100 + 1000 * k) xDemoCode xDemoSubs (fun _ => 9) ∧
+    stmts xDemoCode = xcompile (fun k => 100 + 1000 * k) xDemoMain ++ (.end_ :: ((stmts xDemoCode).drop 9)) ∧
+    Layout (fun k => 100 + 1000 * k) xDemoCode 0 xDemoMain := by
+  refine ⟨⟨?_, ?_⟩, by decide, ?_⟩
+  · intro k body hk
+    match k with
+    | 0 =>
+      simp only [xDemoSubs, List.getElem?_cons_zero, Option.some.injEq] at hk
+      subst hk
+      refine ⟨(stmts xDemoCode).take 9, [], by decide, by decide, by decide, ?_⟩
+      refine ⟨trivial, by simp [NoIf], ?_, ?_⟩
+      · intro i h1 h2 ins hi
+        simp [xcompile] at h1 h2
+        have : i = 11 := by omega
+        subst this
+        simp [xDemoCode, flatten, flattenLine] at hi
+        subst hi; rfl
+      · intro ins hi
+        simp [xcompile, xDemoCode, flatten, flattenLine] at hi
+        subst hi; rfl
+    | k + 1 => simp [xDemoSubs] at hk
+  · intro k hk
+    match k with
+    | 0 => simp [xDemoSubs] at hk
+    | k + 1 =>
+      simp [lineIndex, lineIndexFrom, xDemoCode, flatten, flattenLine]
+      repeat' split
+      all_goals first | rfl | omega
+  · refine ⟨trivial, by simp [NoIf], by simp [NoIf], ?_, ?_⟩
+    · intro i h1 h2 ins hi
+      simp [xcompile] at h1 h2
+      have : i = 3 ∨ i = 4 ∨ i = 5 ∨ i = 6 := by omega
+      rcases this with rfl | rfl | rfl | rfl <;>
+        (simp [xDemoCode, flatten, flattenLine] at hi; subst hi; rfl)
+    · intro ins hi
+      simp [xcompile, xDemoCode, flatten, flattenLine] at hi
+      subst hi; rfl
+
+example : trace true [⟨10, [.for_ 0 (.lit 1) (.lit 3) none, .gosub 100]⟩,
+           ⟨20, [.ifThen (.bin .gt (.var 1) (.lit 2)) none, .print (.var 1), .else_ none, .print (.lit 0),
+                 .gosub 100]⟩,
+           ⟨30, [.next [0], .end_]⟩,
+           ⟨100, [.let_ 1 (.bin .add (.var 1) (.var 0)), .ifThen (.bin .lt (.var 1) (.lit 2)) none, .gosub 100]⟩,
+           ⟨110, [.ret]⟩] 200 = ([0, 5, 8], .ended) := by decide
+
+
+/-! ### early exits from loops: stale stack records are dropped (Mech layer, every program) -/
+
+/-- NEXT of the innermost active loop after early exits from loops inside its body: the stale records
+    above the loop's own record (`WithStale`) are skipped and dropped, the statement behaves as if they
+    were not there, and the invariant holds again for the enclosing loops. -/
+theorem next_drops_stale_records (fixed : Bool) (code : List Instr) (s : St) (r : ForRec)
+    (act : List ForRec) (vs : List Nat)
+    (hat : stmtAt code s.pc = some (.next vs)) (hr : r.nextpos = (s.pc, 0)) (hvs : vs = [] ∨ vs = [r.var])
+    (h : WithStale (r :: act) s.fors) :
+    ∃ ms', WithStale act ms' ∧ stepWith fixed code s = stepWith fixed code { s with fors := r :: ms' } := by
+  rcases hvs with hv | hv
+  · obtain ⟨ms', h1, h2⟩ := iterate_withStale s r act none h (.inl rfl)
+    refine ⟨ms', h1, ?_⟩
+    rw [hr] at h2
+    subst hv
+    simp only [stepWith, hat, h2]
+  · obtain ⟨ms', h1, h2⟩ := iterate_withStale s r act (some r.var) h (.inr rfl)
+    refine ⟨ms', h1, ?_⟩
+    rw [hr] at h2
+    subst hv
+    simp only [stepWith, hat, nextVars, h2]
+
+/-- WEND after early exits from WHILE loops inside its body: their records are popped first -/
+theorem wend_drops_stale_records (fixed : Bool) (code : List Instr) (s : St) (wh : Nat)
+    (K ws : List (Nat × Nat)) (c : Expr) (hat : stmtAt code s.pc = some .wend)
+    (hw : stmtAt code wh = some (.while_ c))
+    (hs : s.whiles = K ++ (wh, s.pc) :: ws) (hK : ∀ x ∈ K, x.2 ≠ s.pc) :
+    stepWith fixed code s = stepWith fixed code { s with whiles := (wh, s.pc) :: ws } := by
+  have h1 := popWhile_skips_stale s.pc wh K ws hK
+  simp only [stepWith, hat, hs, h1, popWhile, if_true, hw]
+
 
 /-! ### link with the byte-level integer model of C02, counterexamples for the unrepaired code -/
 
